@@ -229,6 +229,8 @@ class YmlProjectIo(ProjectIoInterface):
         scheme = replace(result.scheme, data=result.data)
         scheme_path = result_folder / "scheme.yml"
         save_scheme(scheme, scheme_path, allow_overwrite=True)
+        # the scheme was saved as a copy, the reference in the result file needs to point to it
+        result.scheme.source_path = scheme.source_path
         paths.append(scheme_path.as_posix())
 
         result_dict = asdict(result, folder=result_folder)
